@@ -4,7 +4,9 @@
 (*                                                                         *)
 (* A case is  [g |-> grid (GridGeom format, integer nodes),                *)
 (*             meas |-> <<n, d>> measure of the domain (known by            *)
-(*                      construction of the family),                       *)
+(*                      construction of the family; <<0, 1>>: not known,   *)
+(*                      then the sum of the exact cell measures is used),  *)
+(*             strict, convex, raised |-> booleans (see below),            *)
 (*             out |-> [vol, cc, fc, fn, fa2]]                             *)
 (* where out is what porepy's compute_geometry produced, converted to      *)
 (* rationals (fa2 = face_areas squared).                                   *)
@@ -24,7 +26,7 @@
 (*                       = (dim + 1) |c| (x_c - p0)                        *)
 (*      (p0 = first node: a point of the grid's line / plane; the last two *)
 (*      only for planar faces - the families contain nothing else and      *)
-(*      InputLaws verifies that).                                          *)
+(*      Valid(E) verifies that).                                           *)
 (*      They are evaluated in integers over a common denominator L <= 12;  *)
 (*      SmallG(X) guards against 32-bit overflow on garbage values - such  *)
 (*      a value is reported by group (II) and by Representable (the exact  *)
